@@ -1636,7 +1636,7 @@ def _conflated(adm: _Adm, typed: bool = False):
     if len(num) > 1 or (num and num != {"bool"} and "bool" not in ex):
         return "True == 1" + (" (an int key admits bool)" if num == {"int"} else "") + (", 7 == Decimal(7)" if num - {"int", "bool"} else "")
     if ("datetime" in ks or ("date" in ks and "datetime" not in ex)) and "Timestamp" not in ex:
-        return "a datetime == the Timestamp of the same instant, which is recorded as another type"
+        return "a datetime == the Timestamp of the same instant (recorded as another type), and two zoned datetimes for one instant are equal whatever their zones"
     return None
 
 
@@ -1804,7 +1804,49 @@ def _value_carriers(ck, modules):
     return out, sites
 
 
-def _class_facts_at(fa: FA, st, node, name: str, ck, sites, depth=0) -> _Adm:
+def _annotation_of(fa: FA, param: str):
+    for a in fa.fi.node.args.posonlyargs + fa.fi.node.args.args + fa.fi.node.args.kwonlyargs:
+        if a.arg == param and a.annotation is not None:
+            ann = a.annotation
+            if isinstance(ann, ast.Constant) and isinstance(ann.value, str):
+                try:
+                    ann = ast.parse(ann.value, mode="eval").body
+                except SyntaxError:
+                    return None
+            return ann
+    return None
+
+
+def _annotated_classes(fa: FA, param: str):
+    """The classes the annotation of a parameter names (Optional / Union taken apart, subscripts reduced to their base);
+    None when there is none or it is Any / object / something that is not a class name."""
+    def toks(ann):
+        if isinstance(ann, ast.Constant) and ann.value is None:
+            return {"None"}
+        if isinstance(ann, ast.Subscript):
+            head = (A.dotted(ann.value) or "").split(".")[-1]
+            if head == "Optional":
+                t = toks(ann.slice)
+                return None if t is None else t | {"None"}
+            if head == "Union":
+                out = set()
+                for e in (ann.slice.elts if isinstance(ann.slice, ast.Tuple) else [ann.slice]):
+                    t = toks(e)
+                    if t is None:
+                        return None
+                    out |= t
+                return out
+            return toks(ann.value)
+        d = A.dotted(ann)
+        if not d or d.split(".")[-1] in ("Any", "object", "Hashable", "T"):
+            return None
+        return {d}
+
+    ann = _annotation_of(fa, param)
+    return toks(ann) if ann is not None else None
+
+
+def _class_facts_at(fa: FA, st, node, name: str, ck, sites, depth=0, annotations=True) -> _Adm:
     """What is known about the class of the object `name` holds when `node` (inside statement `st`) is evaluated: the path
     condition of the statement and the tests around the node inside it; for a parameter of a helper that is new w.r.t. the
     inventory also what its callers know about the argument they pass (any of them may be the caller)."""
@@ -1825,6 +1867,11 @@ def _class_facts_at(fa: FA, st, node, name: str, ck, sites, depth=0) -> _Adm:
         acc = a if acc is None else acc.either(a)
     acc = acc if acc is not None else _Adm()
     callers = sites.get((fa.qual, name))
+    if acc.classes is None and not callers and annotations:
+        # no test on the path: a parameter is what its annotation says (Any / object say nothing)
+        ann = _annotated_classes(fa, name)
+        if ann:
+            acc = acc.both(_Adm(ann))
     if callers and depth < 4 and fa.df.reaching(fa.nodes(st)[0], name) and all(d.kind == "param" for d in fa.df.reaching(fa.nodes(st)[0], name)):
         outer = None
         for (cfa, cst, call, arg) in callers:
@@ -1844,23 +1891,17 @@ _SEQUENCES = {"list", "tuple", "set", "frozenset", "List", "Tuple", "Sequence", 
 def _kind_there(fa: FA, st, node, param: str, ck, sites):
     """'value': the parameter holds one argument value whose class a test on the path has established; else by its
     annotation 'sequence' (of values) or 'mapping' (names -> values); None when nothing is known."""
-    adm = _class_facts_at(fa, st, node, param, ck, sites)
+    adm = _class_facts_at(fa, st, node, param, ck, sites, annotations=False)
     if adm.classes is not None:
         return "value"
-    for a in fa.fi.node.args.posonlyargs + fa.fi.node.args.args + fa.fi.node.args.kwonlyargs:
-        if a.arg == param and a.annotation is not None:
-            ann = a.annotation
-            if isinstance(ann, ast.Constant) and isinstance(ann.value, str):
-                try:
-                    ann = ast.parse(ann.value, mode="eval").body
-                except SyntaxError:
-                    return None
-            while isinstance(ann, ast.Subscript) and (A.dotted(ann.value) or "").split(".")[-1] == "Optional":
-                ann = ann.slice
-            base = ann.value if isinstance(ann, ast.Subscript) else ann
-            last = (A.dotted(base) or "").split(".")[-1]
-            return "sequence" if last in _SEQUENCES else "mapping" if last in ("dict", "Dict", "Mapping", "OrderedDict", "MutableMapping") else None
-    return None
+    ann = _annotation_of(fa, param)
+    if ann is None:
+        return None
+    while isinstance(ann, ast.Subscript) and (A.dotted(ann.value) or "").split(".")[-1] == "Optional":
+        ann = ann.slice
+    base = ann.value if isinstance(ann, ast.Subscript) else ann
+    last = (A.dotted(base) or "").split(".")[-1]
+    return "sequence" if last in _SEQUENCES else "mapping" if last in ("dict", "Dict", "Mapping", "OrderedDict", "MutableMapping") else None
 
 
 def _raw_value(fa: FA, st, node, e, at, vals, ck, sites):
